@@ -4,6 +4,7 @@ import (
 	"fmt"
 	"math/rand"
 	"sync"
+	"sync/atomic"
 	"testing"
 	"testing/synctest"
 	"time"
@@ -43,14 +44,14 @@ type relay struct {
 type relayFace struct {
 	rl      *relay
 	peer    *relayFace
-	running bool
+	running atomic.Bool
 	onPkt   func(r enc.ParseReader) error
 	onError func(err error) error
 }
 
-func (f *relayFace) Open() error       { f.running = true; return nil }
-func (f *relayFace) Close() error      { f.running = false; return nil }
-func (f *relayFace) IsRunning() bool   { return f.running }
+func (f *relayFace) Open() error       { f.running.Store(true); return nil }
+func (f *relayFace) Close() error      { f.running.Store(false); return nil }
+func (f *relayFace) IsRunning() bool   { return f.running.Load() }
 func (f *relayFace) IsLocal() bool     { return true }
 func (f *relayFace) SetCallback(onPkt func(r enc.ParseReader) error, onError func(err error) error) {
 	f.onPkt, f.onError = onPkt, onError
@@ -117,7 +118,7 @@ func (f *relayFace) Send(pkt enc.Wire) error {
 	peer := f.peer
 	for _, d := range delays {
 		time.AfterFunc(d, func() {
-			if peer.running && peer.onPkt != nil {
+			if peer.running.Load() && peer.onPkt != nil {
 				peer.onPkt(enc.NewBufferReader(b))
 			}
 		})
